@@ -21,6 +21,16 @@ CLAIMED = {
  'C02': dict(level='model_checking', ref='5/C02',
    text='Three solver-decided layers on the real code: (K1) CalculateGlobalR / CalculateM / CalculateNextPointCoordinate / CalculateDelta / FirstIteration against the statement\'s formulas for all real inputs (exact non-linear real arithmetic, N<=5 thorough); (L2) one real DoGlobalIteration from an arbitrary state satisfying the representation invariant (symbolic coordinates, values, M, r; <=3 evaluated trials; abstract arithmetic with sound axioms): chosen interval maximal, rule point, strictly inside, invariant re-established, so by induction every iteration index is covered; (L3) reachable concrete prefixes followed by arbitrary objective values through the public interface, checked against an independent reference implementation of the decision rule.',
    note='z3 (QF_NRA from scratch per query for L3/K1; UF+LRA abstraction for L2); CPython; symex proxies; QueueStub contract model of depq.DEPQ and EvolventStub (N>=2) in L2; induction over iterations on paper; floats as reals'),
+
+ 'C03': dict(level='model_checking', ref='5/C03',
+   text='(i) CheckStopCondition against the stop rule and the ranking function itersLimit-iterations for all values (solver); (ii) one real iteration from an arbitrary invariant state: iterations, reported trials and evaluations advance by one, accuracy = min(previous, length of the subdivided interval); (iii) the real Process.Solve from an arbitrary invariant state with symbolic eps / itersLimit and room for at most one more iteration: no evaluation once the stop condition holds, exactly one otherwise, nothing swallowed; (iv) scenarios through the public interface with symbolic eps in (0,2) and arbitrary objective values (fresh itersLimit 1..3; reachable prefixes with binding budget; batches then Solve; Solve twice) against the stop rule recomputed from the observed history. (ii)+(iii)+(i) give termination and exactness for every run length by induction.',
+   note='z3; symex proxies; QueueStub / EvolventStub in the symbolic-state jobs; induction on paper; floats as reals (interval underflow below float resolution is outside)'),
+ 'C04': dict(level='model_checking', ref='5/C04',
+   text='One real iteration from an arbitrary invariant state with all values symbolic (ties included): the reported best is an item of the record, owns its value, nothing evaluated is smaller, a strictly better trial takes over; plus scenarios through the public interface (fresh and reachable prefixes + arbitrary values, mixed batches and Solve, a second live solver iterated in between) in which the optimum clauses are checked inside every listener callback, in polled, kept and returned Solutions against the log of completed evaluations.',
+   note='z3; symex proxies; stubs as in C02; NaN values and refinement outside'),
+ 'C06': dict(level='model_checking', ref='5/C06',
+   text='One real iteration from an arbitrary invariant state: exactly one new item linked into the subdivided interval, both new lengths (x-x_left)^(1/N), frame conditions for every other item, own value holder, value = objective at the stored point, point = evolvent image; plus scenarios through the public interface (fresh, reachable prefixes + arbitrary values, failed first trial then resume, second live solver of another dimension) where the whole traversal, links, count, lengths, images and values are compared with the log of completed evaluations.',
+   note='z3; symex proxies; stubs as in C02; floats as reals'),
 }
 checks = []
 for p in props:
